@@ -1895,11 +1895,44 @@ pub fn lift_fn(ctx: &mut Ctx, blk: &Block) -> Result<(String, Value), String> {
     };
     let mut text = String::new();
     let mut unbound_notes: Vec<(String, usize, String)> = Vec::new();
+    // L17d: `@ret` names the identifier the function returns (`x` or `Ok(x)` in tail position), so that an
+    // observable follows the value that leaves the function and not the name of a local
+    let ret_ident: Option<String> = match f.block.stmts.last() {
+        Some(syn::Stmt::Expr(e, None)) => {
+            let mut e = e;
+            if let syn::Expr::Call(c) = e {
+                if let syn::Expr::Path(p) = &*c.func {
+                    if p.path.is_ident("Ok") && c.args.len() == 1 {
+                        e = &c.args[0];
+                    }
+                }
+            }
+            match e {
+                syn::Expr::Path(p) => p.path.get_ident().map(|i| i.to_string()),
+                _ => None,
+            }
+        }
+        _ => None,
+    };
     if let Some(obs) = blk.opt("observe") {
         for o in obs.split(',') {
             let (o, decl_ty) = match o.split_once(':') {
                 Some((a, t)) => (a.trim(), Some(t.trim().to_string())),
                 None => (o.trim(), None),
+            };
+            // `@ret` / `@ret__terms` resolve to the returned identifier (if the tail is not an identifier they stay
+            // unresolved and are treated as unbound)
+            let resolved: String;
+            let (o, ret_alias) = if o == "@ret" || o == "@ret__terms" {
+                match &ret_ident {
+                    Some(r) => {
+                        resolved = if o == "@ret" { r.clone() } else { format!("{r}__terms") };
+                        (resolved.as_str(), Some(o.trim_start_matches('@').to_string()))
+                    }
+                    None => (o, Some(o.trim_start_matches('@').to_string())),
+                }
+            } else {
+                (o, None)
             };
             let is_bound = if let Some(rest) = o.strip_prefix('@') {
                 // the function calls `f`
@@ -1936,9 +1969,10 @@ pub fn lift_fn(ctx: &mut Ctx, blk: &Block) -> Result<(String, Value), String> {
             } else {
                 bound_names.iter().any(|b| b == o)
             };
-            let oname_part = match o.strip_prefix('@') {
-                Some(rest) => rest.replace('.', "_arg").replace('#', "_call"),
-                None => o.to_string(),
+            let oname_part = match (&ret_alias, o.strip_prefix('@')) {
+                (Some(a), _) => a.clone(),
+                (None, Some(rest)) => rest.replace('.', "_arg").replace('#', "_call"),
+                (None, None) => o.to_string(),
             };
             if !is_bound {
                 // L17b: an observable the function no longer binds is an arbitrary value of its declared type,
